@@ -48,8 +48,9 @@ type gmat struct {
 }
 
 // newGmat allocates an r×c matrix with stride ld carved from a poisoned
-// array; val == nil leaves the elements poisoned (write-only operand).
-func newGmat(p Prec, r, c, ld, id int, val func(i, j int) float64) *gmat {
+// array (NaN poison, or finite sentinels if finite); val == nil makes the
+// elements NaN (write-only operand).
+func newGmat(p Prec, r, c, ld, id int, finite bool, val func(i, j int) float64) *gmat {
 	m := &gmat{r: r, c: c, ld: ld}
 	if r > 0 && c > 0 {
 		m.n = (r-1)*ld + c
@@ -57,7 +58,14 @@ func newGmat(p Prec, r, c, ld, id int, val func(i, j int) float64) *gmat {
 	total := padPre + m.n + padCap + padPost
 	m.st = newStore(p, total)
 	for i := 0; i < total; i++ {
-		m.st.setPoison(i, id*20000+i)
+		m.st.fillGuard(i, id*20000+i, finite)
+	}
+	if val == nil { // write-only elements are NaN in both guard modes
+		for i := 0; i < r; i++ {
+			for j := 0; j < c; j++ {
+				m.st.setPoison(padPre+i*ld+j, id*20000+i*ld+j)
+			}
+		}
 	}
 	if val != nil {
 		for i := 0; i < r; i++ {
@@ -158,16 +166,19 @@ func genGemmBig(g *vlib.G) {
 						}
 						var calls, compared, unchanged int64
 						for v, d := range lds {
-							for _, s := range abs {
+							for si, s := range abs {
+								// guard mode alternates so that every (alpha,beta) pair and
+								// every ld variant is run under NaN poison and under finite sentinels
+								finite := (v+si)%2 == 1
 								for _, p := range []Prec{S, D} {
 									lda, ldb, ldc := imax(1, ac)+d, imax(1, bc)+lds[(v+1)%len(lds)], imax(1, n)+lds[(v+2)%len(lds)]
-									A := newGmat(p, ar, ac, lda, 0, av)
-									B := newGmat(p, br, bc, ldb, 1, bv)
+									A := newGmat(p, ar, ac, lda, 0, finite, av)
+									B := newGmat(p, br, bc, ldb, 1, finite, bv)
 									var C *gmat
 									if s.b == 0 {
-										C = newGmat(p, m, n, ldc, 2, nil)
+										C = newGmat(p, m, n, ldc, 2, finite, nil)
 									} else {
-										C = newGmat(p, m, n, ldc, 2, cv)
+										C = newGmat(p, m, n, ldc, 2, finite, cv)
 									}
 									if p == D {
 										impl.Dgemm(tA, tB, m, n, k, s.a, A.f64(), lda, B.f64(), ldb, s.b, C.f64(), ldc)
@@ -175,7 +186,7 @@ func genGemmBig(g *vlib.G) {
 										impl.Sgemm(tA, tB, m, n, k, float32(s.a), A.f32(), lda, B.f32(), ldb, float32(s.b), C.f32(), ldc)
 									}
 									calls++
-									sub := fmt.Sprintf("%cgemm lda=%d ldb=%d ldc=%d alpha=%v beta=%v", "SD"[p], lda, ldb, ldc, s.a, s.b)
+									sub := fmt.Sprintf("%cgemm lda=%d ldb=%d ldc=%d alpha=%v beta=%v finite-guards=%v", "SD"[p], lda, ldb, ldc, s.a, s.b, finite)
 									for _, X := range []*gmat{A, B} {
 										if i := X.st.firstChanged(0, X.st.n); i >= 0 {
 											t.Failf("[%s] read-only operand written at backing index %d: %s", sub, i-padPre, X.st.show(i))
